@@ -38,10 +38,10 @@ theorem count_of_nodup_fst {s : List (Nat × Int)} (hn : (fsts s).Nodup) {i : Na
 theorem Spec.get_cons_ne {e : Nat × Int} {i : Nat} (h : e.1 ≠ i) (s : Spec) :
     Spec.get (e :: s) i = Spec.get s i := by
   have : (e.1 == i) = false := by simpa using h
-  simp [Spec.get, List.find?_cons, this]
+  simp [Spec.get, this]
 
 theorem Spec.get_cons_eq (k : Int) (i : Nat) (s : Spec) : Spec.get ((i, k) :: s) i = some k := by
-  simp [Spec.get, List.find?_cons]
+  simp [Spec.get]
 
 theorem Spec.get_eq_none_iff (s : Spec) (i : Nat) : Spec.get s i = none ↔ i ∉ fsts s := by
   induction s with
